@@ -215,3 +215,54 @@ def enumerate_lang(lang: Lang, max_len: int = 4, limit: int = 64) -> List[str]:
                     nxt.append((w + ch, n))
         work = nxt
     return out
+
+
+def included(a: Lang, b: Lang) -> Tuple[int, Optional[str]]:
+    """L(a) subset of L(b)? Returns (states explored, None) or a shortest witness in L(a) - L(b)."""
+    assert a.alphabet == b.alphabet
+    start = (a.initial(), b.initial())
+    seen = {start: ""}
+    work = [start]
+    while work:
+        nxt_work = []
+        for st in work:
+            w = seen[st]
+            if a.accepting(st[0]) and not b.accepting(st[1]):
+                return len(seen), w
+            for ch in a.alphabet:
+                n = (a.step(st[0], ch), b.step(st[1], ch))
+                if not n[0]:
+                    continue
+                if n not in seen:
+                    seen[n] = w + ch
+                    nxt_work.append(n)
+        work = nxt_work
+    return len(seen), None
+
+
+def split_alternatives(pattern: str) -> List[str]:
+    """Top-level alternatives of a pattern (split on `|` outside groups and classes)."""
+    out, depth, cls, cur, i = [], 0, False, "", 0
+    while i < len(pattern):
+        ch = pattern[i]
+        if ch == "\\" and i + 1 < len(pattern):
+            cur += pattern[i:i + 2]
+            i += 2
+            continue
+        if cls:
+            cls = ch != "]"
+        elif ch == "[":
+            cls = True
+        elif ch == "(":
+            depth += 1
+        elif ch == ")":
+            depth -= 1
+        elif ch == "|" and depth == 0:
+            out.append(cur)
+            cur = ""
+            i += 1
+            continue
+        cur += ch
+        i += 1
+    out.append(cur)
+    return out
